@@ -107,4 +107,7 @@ def parseHexAux : List Char → Bytes → Option Bytes
 def parseHex (s : String) : Option Bytes :=
   if s == "-" then some [] else parseHexAux s.toList []
 
+/-- was this generated item translated from the current source (not a canonical fallback)? -/
+def tieItem (l : List (String × Bool)) (name : String) : Bool := l.any (fun p => p.1 == name && p.2)
+
 end Rpcx
